@@ -15,6 +15,8 @@ type propSpec struct {
 	Assume    []string
 	Real      []string
 	Stub      []string
+	// Race: also run the property's programs free-running under the race detector.
+	Race bool
 	// MustReach lists reach probes that must be non-zero in the thorough tier.
 	MustReach []string
 }
@@ -61,5 +63,12 @@ var specs = map[string]*propSpec{
 		Real:      []string{"pkg/blobserver/encrypt (encrypt.go, meta.go)", "filippo.io/age"},
 		Stub:      []string{"SimStore blobs/meta", "SimKV metaIndex", "crypto/rand replaced by a seeded DRBG"},
 		MustReach: []string{"restart-index-wiped", "meta-compaction-removed-small-metas", "tamper-flipall"},
+	},
+	"C14": {
+		ID: "C14", Engine: "storesim", Level: "exploration",
+		QuickRuns: 40000, ThoroughRuns: 600000, Chunk: 250, WatchdogS: 400, Race: true,
+		Rule: "one evaluation = one concurrent program (2-16 client tasks, 1-5 operations each, on 1-4 overlapping blobs) against a backend composition, executed under the seeded scheduler (every seam call and, with a per-run probability, every lock acquisition is a scheduling point); per-key histories stamped with the global event sequence are checked with porcupine against a present/absent register (sub-runs = key histories checked), enumerations with interval semantics, sequential reads after quiescence are part of each history; a second configuration runs the same programs free-running under the race detector; distinct = distinct (composition, per-client op kinds)",
+		Real: []string{"pkg/blobserver/{memory,files,localdisk,diskpacked,blobpacked,encrypt,replica,shard,cond,overlay,namespace,proxycache}"},
+		Stub: []string{"SimStore", "SimKV", "SimVFS", "os shim"},
 	},
 }
